@@ -174,8 +174,11 @@ void reschedule(const char* kind) {
 		if (dl <= S.now) {
 			verdict("kernel-bug", "deadline in the past but task not ready\n" + describe_tasks());
 		}
-		if (dl - S.now > S.cfg.stuck_jump_ns && any_api_in_progress()) {
-			verdict("stuck", "all tasks blocked, next wake-up source is more than the stuck threshold away while an API call is in progress\n" + describe_tasks());
+		if (dl - S.now > S.cfg.stuck_jump_ns) {
+			if (any_api_in_progress())
+				verdict("stuck", "all tasks blocked, next wake-up source is more than the stuck threshold away while an API call is in progress\n" + describe_tasks());
+			else
+				verdict("idle-forever", "all tasks blocked and no wake-up source within the stuck threshold (no API call with a bound in progress)\n" + describe_tasks());
 		}
 		S.now = dl;
 		S.stats.time_jumps++;
@@ -448,6 +451,18 @@ void sleep_ms(uint64_t ms) {
 	std::function<bool()> ready = [until]() { return S.now >= until; };
 	std::function<uint64_t()> dl = [until]() { return until; };
 	block_until(ready, dl, "sleep", nullptr);
+}
+
+void settle() {
+	if (!in_sim()) return;
+	Task* me = tl_cur;
+	std::function<bool()> ready = [me]() {
+		for (Task* t : S.tasks)
+			if (t != me && t->st != Task::FINISHED && t->what != std::string("settle") && is_ready(t)) return false;
+		return true;
+	};
+	std::function<uint64_t()> dl = []() { return UINT64_MAX; };
+	block_until(ready, dl, "settle", nullptr);
 }
 
 void block_until(const std::function<bool()>& ready, const std::function<uint64_t()>& deadline,
